@@ -39,7 +39,7 @@ func chainCases(tier string, seed int64, quickCount, thoroughCount int, membersh
 		cs.P["badger"] = 0
 		if i%7 == 3 {
 			cs.P["badger"] = 1
-			cs.P["cache"] = int64(200 + r.Intn(400))
+			cs.P["cache"] = int64(2000 + r.Intn(2000))
 		}
 		if membership && n >= 2 && i%3 != 0 {
 			cs.P["joins"] = int64(1 + r.Intn(2))
@@ -81,6 +81,16 @@ func specFromCase(cs CaseSpec) ScheduleSpec {
 		Rejoin:     cs.I("rejoin", 0) == 1,
 		FastSyncJoiners: cs.I("fsjoin", 0) == 1,
 		CallbackTxProb: float64(cs.I("cbtx", 0)) / 100.0,
+		KeepSilent: cs.I("keepsilent", 0) == 1,
+	}
+	if cs.I("dupcontent", 0) == 1 {
+		sp.DupProb = 0.08
+		sp.EmptyProb = 0.04
+	}
+	if cs.I("harshfaults", 0) == 1 {
+		sp.DropProb = 0.15 + 0.25*r.Float64()
+		sp.TruncProb = 0.2 + 0.3*r.Float64()
+		sp.StaleProb = 0.08
 	}
 	return sp
 }
@@ -101,7 +111,7 @@ func optsFromCase(cs CaseSpec) NodeOpts {
 
 // runHistory builds a network for the case, installs the monitors and runs
 // the schedule followed by a fair suffix.
-func runHistory(cs CaseSpec, mk func(nw *Network) []Monitor, after func(nw *Network, res *CaseResult)) *CaseResult {
+func runHistory(cs CaseSpec, mk func(nw *Network) []Monitor, after func(nw *Network, res *CaseResult, cycles int, idle bool)) *CaseResult {
 	res := newResult(cs)
 	nw := NewNetwork(cs, res)
 	defer nw.Close()
@@ -115,6 +125,7 @@ func runHistory(cs CaseSpec, mk func(nw *Network) []Monitor, after func(nw *Netw
 	if !nw.stopped {
 		cycles, idle = nw.FairCycles(int(cs.I("fair", 60)))
 	}
+	nw.idleAfterFair = idle
 	if !nw.stopped {
 		nw.finish()
 	}
@@ -123,7 +134,7 @@ func runHistory(cs CaseSpec, mk func(nw *Network) []Monitor, after func(nw *Netw
 		res.count("histories_not_idle_after_fair_suffix", 1)
 	}
 	if after != nil && !nw.stopped {
-		after(nw, res)
+		after(nw, res, cycles, idle)
 	}
 	res.Evaluations = int64(nw.Step)
 	res.count("steps", int64(nw.Step))
@@ -169,13 +180,95 @@ func init() {
 			for i := range cs {
 				if i%2 == 1 {
 					cs[i].P["badger"] = 1
-					cs[i].P["cache"] = int64(150 + 10*(i%13))
+					cs[i].P["cache"] = int64(2000 + 100*(i%13))
 				}
 			}
 			return cs
 		},
 		Run: func(cs CaseSpec) *CaseResult {
 			return runHistory(cs, func(nw *Network) []Monitor { return []Monitor{NewMonFinality(), NewMonReach()} }, nil)
+		},
+		PerCaseTimeout: 15 * time.Minute,
+	})
+}
+
+func init() {
+	register(&PropDef{
+		ID: "C04", Level: "exploration", Engine: "nodesim",
+		Rule: "one case = one seeded nodesim history with unique-id transactions; every delivered block of every node is joined with the harness's own DAG record (parents, payload): ancestors' payload first, events whole/once/contiguous, block = concatenation of its frame; non-trivial: >=20 events and >=3 blocks",
+		Assumptions: []string{"the harness's DAG record is built from what stores expose after every step", "nodes reset by fast-sync are not required to deliver what was committed before their anchor"},
+		MinNontrivial: 10,
+		Cases: func(tier string, seed int64) []CaseSpec { return chainCases(tier, seed+104729, 48, 640, true) },
+		Run: func(cs CaseSpec) *CaseResult {
+			return runHistory(cs, func(nw *Network) []Monitor { return []Monitor{NewMonCausality()} }, nil)
+		},
+		PerCaseTimeout: 15 * time.Minute,
+	})
+	register(&PropDef{
+		ID: "C05", Level: "exploration", Engine: "nodesim",
+		Rule: "one case = one seeded nodesim history with injected sync failures/truncations; transactions carry unique ids (plus deliberate duplicate-content, empty, binary and large ones); after every step: committed multiset <= submitted multiset and submitted(X) = pool(X) + payload(own events of X) for every running node; after the fair suffix exactly-once everywhere; non-trivial: >=20 events and >=3 blocks",
+		Assumptions: []string{"a node that is restarted loses its pending pool (the property speaks of nodes that keep running)", "pool read through the verif hook between lock holds"},
+		MinNontrivial: 10,
+		Cases: func(tier string, seed int64) []CaseSpec {
+			cs := chainCases(tier, seed+15485863, 48, 640, true)
+			for i := range cs {
+				cs[i].P["dupcontent"] = int64(i % 2)
+				if i%3 == 1 {
+					cs[i].P["cbtx"] = 30
+				}
+				cs[i].P["harshfaults"] = 1
+			}
+			return cs
+		},
+		Run: func(cs CaseSpec) *CaseResult {
+			return runHistory(cs, func(nw *Network) []Monitor { return []Monitor{NewMonTxIntegrity()} }, nil)
+		},
+		PerCaseTimeout: 15 * time.Minute,
+	})
+	register(&PropDef{
+		ID: "C06", Level: "exploration", Engine: "nodesim",
+		Rule: "one case = an adversarial nodesim prefix (any shape, truncated/dropped/stale syncs, a minority < n/3 silent from a random point, possibly for good) followed by fair all-pairs cycles among the live validators with the default sync limit; within 60 cycles everybody must be idle, all payload events / transactions / membership requests committed, chains equal; non-trivial: >=20 events and >=3 blocks",
+		Assumptions: []string{"liveness is decided in its bounded form only (60 fair cycles; the evidence reports the cycles actually needed)", "no equivocation", "trailing empty events may stay undetermined"},
+		MinNontrivial: 10,
+		Cases: func(tier string, seed int64) []CaseSpec {
+			cs := chainCases(tier, seed+32452843, 64, 800, true)
+			for i := range cs {
+				if cs[i].S["shape"] == "silent" {
+					cs[i].P["keepsilent"] = int64(i % 2)
+					// a dead minority and membership changes interact with the 1/3 bound: keep sets static there
+					if cs[i].P["keepsilent"] == 1 {
+						delete(cs[i].P, "joins")
+						delete(cs[i].P, "leaves")
+						delete(cs[i].P, "refused")
+						delete(cs[i].P, "rejoin")
+					}
+				}
+			}
+			return cs
+		},
+		Run: func(cs CaseSpec) *CaseResult {
+			return runHistory(cs, func(nw *Network) []Monitor { return []Monitor{} }, func(nw *Network, res *CaseResult, cycles int, idle bool) {
+				checkLiveness(nw, res, cycles, idle, int(cs.I("fair", 60)))
+			})
+		},
+		PerCaseTimeout: 15 * time.Minute,
+	})
+	register(&PropDef{
+		ID: "C10", Level: "exploration", Engine: "nodesim",
+		Rule: "one case = one seeded nodesim history with a membership script (successive/simultaneous joins, leaves, re-join after leave, joins refused by the application); after every step every node's round->validator-set function is compared with a replay of that node's own delivered blocks (accepted receipts, effective at round-received+6), block peer-set hashes and witness membership are checked; non-trivial: >=20 events and >=3 blocks; histories with at least one replayed change are counted separately",
+		Assumptions: []string{"sets compared as sets of public keys; order is judged through the block's peer-set hash against the node's own reported set"},
+		MinNontrivial: 10,
+		Cases: func(tier string, seed int64) []CaseSpec {
+			cs := chainCases(tier, seed+49979687, 48, 640, true)
+			for i := range cs {
+				if cs[i].P["n"] >= 2 && cs[i].P["joins"] == 0 {
+					cs[i].P["joins"] = 1
+				}
+			}
+			return cs
+		},
+		Run: func(cs CaseSpec) *CaseResult {
+			return runHistory(cs, func(nw *Network) []Monitor { return []Monitor{NewMonValidators()} }, nil)
 		},
 		PerCaseTimeout: 15 * time.Minute,
 	})
